@@ -130,3 +130,50 @@ Example C10_concrete :
   hist_cur true true edges objs = [8; 6] /\
   build_trees_cur true true edges [(1#4, 1); (3#2, 1)] = None.
 Proof. vm_compute. repeat split; reflexivity. Qed.
+
+(* ---- worker processes: the binning is pickled on its way to the workers of build_trees,
+        HistData.from_catalog and count_pairs, and copied into results ---- *)
+
+(* the binning that arrives equals the binning that was sent: every redshift keeps its bins *)
+Theorem C10_transport_sound : forall cr e cr' e',
+  binning_eqb (cr, e) (cr', e') = true ->
+  forall b z, member cr e b z <-> member cr' e' b z.
+Proof. exact transport_sound. Qed.
+Print Assumptions C10_transport_sound.
+
+(* and nothing less will do: the membership relation determines closed side and edges *)
+Theorem C10_member_determines_binning : forall cr cr' e e',
+  increasing e -> increasing e' -> (2 <= length e)%nat -> (2 <= length e')%nat ->
+  (forall b z, member cr e b z <-> member cr' e' b z) ->
+  cr = cr' /\ length e = length e' /\ forall k, (k < length e)%nat -> edge e k == edge e' k.
+Proof. exact member_determines_binning. Qed.
+Print Assumptions C10_member_determines_binning.
+
+(* a lost / flipped closed side moves exactly the edge-valued redshifts *)
+Theorem C10_closed_flip_on_edges : forall e k,
+  increasing e -> (S k < length e)%nat ->
+  member true e k (edge e (S k)) /\ ~ member false e k (edge e (S k)) /\
+  member false e k (edge e k) /\ ~ member true e k (edge e k) /\
+  (forall z, ~ z == edge e k -> ~ z == edge e (S k) -> (member true e k z <-> member false e k z)).
+Proof. exact closed_flip_on_edges. Qed.
+Print Assumptions C10_closed_flip_on_edges.
+
+(* the checker the harness evaluates on every observed transport *)
+Theorem C10_transport_case_sound : forall cr e cr' e',
+  c10_transport_case cr e cr' e' = 0%nat ->
+  increasing e /\ (2 <= length e)%nat /\ cr = cr' /\
+  forall b z, member cr e b z <-> member cr' e' b z.
+Proof. exact transport_case_sound. Qed.
+Print Assumptions C10_transport_case_sound.
+
+(* non-vacuity: a closed = left binning that arrives as closed = right (same edges) is reported by
+   flags 0 and 2, changed edges by flags 1 and 2, and the trees built from the arrived binning
+   differ from the trees of the sent one on a redshift that sits on an edge *)
+Example C10_transport_concrete :
+  let edges := [1#4; 1#2; 1] in
+  c10_transport_case false edges false edges = 0%nat /\
+  c10_transport_case false edges true edges = 5%nat /\
+  c10_transport_case true edges true [1#4; 5#8; 1] = 6%nat /\
+  build_trees_fix true false edges [(1#2, 1)] = [(0%nat, 0); (1%nat, 1)] /\
+  build_trees_fix true true edges [(1#2, 1)] = [(1%nat, 1); (0%nat, 0)].
+Proof. vm_compute. repeat split; reflexivity. Qed.
